@@ -310,3 +310,5 @@ def run(tier, seed):
 
 
 RULE += (' Evaluation sequences also with a caller that only keeps the returned lists (no modification), so a shared result buffer is visible.')
+
+RULE += (' Beyond small: DTLZ1 with 31..1000 distance variables, all four families with m in {8, 10, 16, 17, 33}; designs 1e-2..1e-12 apart evaluated through Algorithm.evaluate.')
